@@ -125,6 +125,14 @@ class StateMachineMatcher:
                                 raise SlashRequired()
                             else:
                                 return rule, result
+                        elif (
+                            not rule.strict_slashes
+                            and websocket == rule.websocket
+                            and _convert(rule, values) is not None
+                        ):
+                            # The rule matches without the slash, only the
+                            # method is wrong.
+                            have_match_for.update(rule.methods)  # type: ignore[arg-type]
                 return None
 
             part = parts[0]
